@@ -108,18 +108,18 @@ TEdge ==
   /\ LET e == Ev.e IN
      IF e \notin Edges(cfg) THEN Bad("edge?")
      ELSE LET s == Src(cfg, e) IN
-       CASE cur.n = s /\ e \in cur.todo ->
-              IF Ev.in \in InputChoices(e)
-                THEN /\ UpdateEdgeWith(e, Ev.in) /\ Consume /\ UNCHANGED <<skip, endwl>>
-                     /\ LET t == Tr(cfg, e, Ev.in) old == val[Dst(cfg, e)]
-                        IN pend' = IF t # None /\ old # None THEN <<t, old>> ELSE <<>>
-                ELSE Bad("input")
-         [] cur # NoCur /\ cur.todo = {} -> FinishNode /\ Silent
-         [] cur # NoCur -> Bad("pending")
-         [] EagerSinks # {} -> PopVisit(Min(EagerSinks)) /\ Silent
-         [] s \in wl /\ CanVisit(s) -> PopVisit(s) /\ Silent
-         [] s \in wl -> Bad("bound")
-         [] OTHER -> Bad("notqueued")
+       IF cur.n = s /\ e \in cur.todo THEN
+            IF Ev.in \in InputChoices(e)
+              THEN /\ UpdateEdgeWith(e, Ev.in) /\ Consume /\ UNCHANGED <<skip, endwl>>
+                   /\ LET t == Tr(cfg, e, Ev.in) old == val[Dst(cfg, e)]
+                      IN pend' = IF t # None /\ old # None THEN <<t, old>> ELSE <<>>
+              ELSE Bad("input")
+       ELSE IF cur # NoCur THEN
+            IF cur.todo = {} THEN FinishNode /\ Silent ELSE Bad("pending")
+       ELSE IF EagerSinks # {} THEN PopVisit(Min(EagerSinks)) /\ Silent
+       ELSE IF s \in wl THEN
+            IF CanVisit(s) THEN PopVisit(s) /\ Silent ELSE Bad("bound")
+       ELSE Bad("notqueued")
 
 \* the merge call that belongs to the preceding update_edge (either argument order; a solver may
 \* also skip the call); any other merge is not a step of the machine
@@ -141,15 +141,15 @@ EndOK(r) ==
 TEnd ==
   /\ Active("end") /\ phase # "ready"
   /\ IF phase # "run" THEN Bad("order")
-     ELSE CASE cur # NoCur /\ cur.todo = {} -> FinishNode /\ Silent
-            [] cur # NoCur -> Bad("dropped")
-            [] wl # {} ->
-                 LET m == Min(wl) IN
-                 IF ~CanVisit(m) THEN PopDefer(m) /\ Silent
-                 ELSE IF OutEdges(cfg, m) = {} THEN PopVisit(m) /\ Silent
-                 ELSE Bad("unprocessed")
-            [] OTHER -> IF EndOK(Ev) THEN Finish /\ Consume /\ UNCHANGED <<pend, skip, endwl>>
-                        ELSE Bad("result")
+     ELSE IF cur # NoCur THEN
+            IF cur.todo = {} THEN FinishNode /\ Silent ELSE Bad("dropped")
+     ELSE IF wl # {} THEN
+            LET m == Min(wl) IN
+            IF ~CanVisit(m) THEN PopDefer(m) /\ Silent
+            ELSE IF OutEdges(cfg, m) = {} THEN PopVisit(m) /\ Silent
+            ELSE Bad("unprocessed")
+     ELSE IF EndOK(Ev) THEN Finish /\ Consume /\ UNCHANGED <<pend, skip, endwl>>
+     ELSE Bad("result")
 
 \* anything that is not allowed in the current phase
 TOther ==
